@@ -1530,7 +1530,8 @@ func (p *Parser) parseHaving(stmt *SelectStatement) error {
 		}
 
 		tok := p.lexer.NextToken()
-		if tok.Type == TokenLIMIT || tok.Type == TokenEOF || tok.Type == TokenWITH {
+		// ORDER BY / LIMIT / WITH start the next clause and end the condition.
+		if tok.Type == TokenLIMIT || tok.Type == TokenEOF || tok.Type == TokenWITH || tok.Type == TokenOrder {
 			break
 		}
 
